@@ -76,6 +76,13 @@ def variants(msg):
                        (b"\r\x03\x17", "term-both"), (b"\n\x03", "term-lf-etx"), (b"\r\n\x03", "term-crlf-etx")):
         c2 = content[:len(content) - tlen] + term
         yield (name, b"\x02" + c2 + gens.checksum(c2) + msg[end:], None)
+    # bytes the checksum does not cover: line terminators or a second STX right behind the STX, an STX behind the
+    # checksum or behind the trailing CR LF (the next frame's STX glued on)
+    for junk in (b"\r", b"\n", b"\r\n", b"\x02", b"\x02\r\n"):
+        yield ("unsummed-after-stx", msg[:1] + junk + msg[1:], None)
+    yield ("stx-after-checksum", msg[:end] + b"\x02" + msg[end:], None)
+    yield ("stx-after-crlf", msg + b"\x02", None)
+    yield ("stx-for-cr", msg[:end] + b"\x02" + msg[end + 1:], None)
     # something in front of the STX (a stray line terminator, a control character, text, a frame that lost its STX)
     for junk in (b"\n", b"\r\n", b"\x05", b"\x06", b"\x00", b"xx", b" ", msg[1:end]):
         yield ("junk-before-stx", junk + msg, None)
@@ -131,6 +138,19 @@ def run(ctx):
         for l, i, m, meta in zip(lines, impls, model, metas):
             if codecio.canon_model(m) != i:
                 s.disagree({"message": hexb(meta[0]), "kind": meta[1], "mutated": hexb(meta[2])}, i, m)
+
+    # the same sweep in an interpreter started with -O (assert statements are compiled away there)
+    oq = Stream("python-O")
+    res = common.run_under_O("C09", "optimised_sweep", 8 if ctx.thorough else 2, "C09.O/%d" % common.seed())
+    oq.evaluations += res["evaluations"]
+    oq.nontrivial.update(range(res["evaluations"]))
+    oq.samples.append({"interpreter": "python -O", "assertions_enabled": res["debug"]})
+    if res["debug"]:
+        oq.fail({"interpreter": "python -O"}, "the child interpreter did not run with -O", "python-O/not-optimised")
+    for f in res["failures"][:1]:
+        oq.fail(f, "under python -O decode_message %s a message that is %swell-formed (%s)" % (
+            "accepts" if f["impl"].startswith("ok") else "rejects", "not " if f["impl"].startswith("ok") else "", f["kind"]),
+            "python-O/wellformed-mismatch")
 
     # the frame number is one ASCII digit whatever codec the caller requests for the text: every value of the frame
     # number byte (checksum matching), decoded with codecs that have digits of their own (Thai, Arabic code pages), EBCDIC,
@@ -204,7 +224,23 @@ def run(ctx):
         for i, m, meta in zip(impls, model, metas):
             if codecio.canon_model(m)[:2] != i:
                 big.disagree(meta, i, m[:40])
-    return [s, q, big]
+    return [s, oq, q, big]
+
+
+def optimised_sweep(n_msgs, seed_tag):
+    """(runs in a child interpreter under -O) every variant of a few valid messages: accepted iff well-formed"""
+    r = common.rng(seed_tag)
+    bad = []
+    n = 0
+    for i in range(n_msgs):
+        msg = valid_message(r, final=(i % 2 == 0))
+        for kind, mut, must_reject in variants(msg):
+            got = codecio.impl_line("dm", "latin-1", mut)
+            n += 1
+            if got.startswith("ok") != bool(wellformed(mut)) and len(bad) < 5:
+                bad.append({"message": hexb(msg), "kind": kind, "mutated": hexb(mut), "impl": got[:80],
+                            "assertions_enabled": __debug__})
+    return {"evaluations": n, "failures": bad, "debug": __debug__}
 
 
 def wellformed(m):
